@@ -77,6 +77,12 @@ type serverConn struct {
 	// channel.
 	writeStop chan struct{}
 
+	// writeDone is closed when the write loop has returned, which it also does
+	// when a write fails. Frames queued after that would sit in writer with
+	// nobody to take them, and once the queue is full a bare send blocks for
+	// good: so every send into writer selects on this as well.
+	writeDone chan struct{}
+
 	// handlerDone carries a stream back to the stream loop once its handler has
 	// returned. Handlers run on their own goroutines so that a slow request
 	// does not hold up the other streams on the connection, but everything the
@@ -194,6 +200,7 @@ func (sc *serverConn) Serve() error {
 
 	// writeDone lets the teardown wait for queued frames to reach the socket.
 	writeDone := make(chan struct{})
+	sc.writeDone = writeDone
 
 	go func() {
 		defer close(writeDone)
@@ -348,6 +355,16 @@ func (sc *serverConn) readLoop() (err error) {
 	var expectContinuation uint32
 
 	for err == nil {
+		// Without the stream loop there is nobody left to serve: it ends on a
+		// connection error or when everything a GOAWAY promised is done. A
+		// peer that went on sending frames this loop answers by itself (PING)
+		// kept the connection, and ServeConn, alive for as long as it liked.
+		select {
+		case <-sc.handlerStop:
+			return errConnClosed
+		default:
+		}
+
 		// What bounds a frame we receive is the SETTINGS_MAX_FRAME_SIZE this end
 		// advertised, not the peer's: that one says what the peer is willing
 		// to receive, and before its first SETTINGS frame it was zero, which
@@ -1923,6 +1940,20 @@ func (sc *serverConn) write(fr *FrameHeader) {
 
 	select {
 	case sc.writer <- fr:
+	case <-sc.writeDone:
+		// The write loop gave up, on a peer that stopped reading and then
+		// went away, say. Without this the stream loop and the read loop
+		// stayed blocked here once the queue had filled, and ServeConn
+		// never returned.
+		if verifOn {
+			vWDrop(sc)
+		}
+
+		for fr != nil {
+			next := fr.next
+			ReleaseFrameHeader(fr)
+			fr = next
+		}
 	case <-sc.writeStop:
 		if verifOn {
 			vWDrop(sc)
